@@ -34,3 +34,17 @@ Definition c06_no_resend_acked_t (cfg : vconfig) (st : fstep) : bool :=
 
 Definition c06_no_resend_acked_g (cfg : vconfig) (tr : list fstep) : bool :=
   noemsg_scan (c06_no_resend_acked_t cfg) None tr.
+
+(* fast retransmit, claimed when the SACK depth the table carries is not negative (it is a length) and the
+   distance from the recovery phase's high_rxt to the first undelivered segment is within the wrap tolerance:
+   at most (segments in the table before the poll) + (index of the first undelivered one) < 1024 *)
+Definition c06_fast_retx_ok_t (cfg : vconfig) (st : fstep) : bool :=
+  if (0 <=? f_sack_depth (fs_post st)) &&
+     match first_undelivered (f_segs (fs_post st)) with
+     | Some (i, _) => Z.of_nat (length (f_segs (fs_pre st))) + Z.of_nat i <? 1024
+     | None => true
+     end
+  then c06_fast_retx_ok cfg st else true.
+
+Definition c06_fast_retx_ok_g (cfg : vconfig) (tr : list fstep) : bool :=
+  noemsg_scan (c06_fast_retx_ok_t cfg) None tr.
